@@ -80,7 +80,10 @@ struct universal_callback
         if (g.throwing.find('f') != std::string::npos)
             throw undeclared{"features"};
         g.f++;
-        v = X->col(i);
+        if (v.size() != X->rows()) // the library must hand over a vector of size dimension(); a user callback may fill it element-wise
+            throw std::logic_error("features callback was handed a vector of size " + std::to_string(v.size()));
+        for (IndexType r = 0; r < X->rows(); ++r)
+            v(r) = (*X)(r, i);
     }
 };
 
